@@ -830,12 +830,15 @@ def run_session_case(st, case, which):
         cs.close()
     return finish(res, kind)
 
-CORPUS = [
-    # F15: blockSizeID outside {0,4..7} was accepted by LZ4F_compressBegin_internal (fixed in /repo, commit "reject an invalid blockSizeID")
-    {"kind": "corpus", "id": "f15_compressFrame_bsid3", "seed": 15, "tier": "quick"},
-    {"kind": "corpus", "id": "f15_stream_bsid3_linked_noautoflush", "seed": 15, "tier": "quick"},
-    {"kind": "corpus", "id": "f15_stream_bsid3_autoflush", "seed": 15, "tier": "quick"},
-]
+def load_corpus():
+    """regression cases of repaired defects (corpus/c07_*.json, corpus/c03_*.json)"""
+    import json, glob, os
+    root = os.path.dirname(os.path.dirname(os.path.dirname(os.path.dirname(os.path.abspath(__file__)))))
+    cases = []
+    for f in sorted(glob.glob(os.path.join(root, "corpus", "c0[37]_*.json"))):
+        cases += json.load(open(f)).get("cases", [])
+    return cases
+CORPUS = load_corpus()
 
 def corpus_case(st, cs, case, res):
     """fixed regression cases of repaired defects: each must report a violation again if the repair is reverted"""
